@@ -250,6 +250,8 @@ class VCGen:
             return empty(want), want
         if want.k == 'dict' and v is None:
             return default(want), want
+        if want.k == 'tup' and t.k == 'tup' and len(want.a) == len(t.a):
+            return tup_mk(want, [s.coerce(tup_get(v, t, i), t.a[i], want.a[i], st)[0] for i in range(len(t.a))]), want
         if want.k == 'lref' and t.k == 'lref':
             return v, want
         if want.k == 'ref' and t.k == 'ref':       # subclass instance where the base class is expected (same integer reference)
@@ -416,11 +418,25 @@ class VCGen:
     def ev_Name(s, e, st):
         nm = e.id
         if nm in st.env:
-            if nm in st.unbound and not s.specmode:
-                ub = st.env.get('__bound_' + nm)
-                s.safe(st, f'bound:{nm}', ub[0] if ub else BoolVal(False), e.lineno)
+            if not s.specmode and '__b_' + nm in st.env:
+                bnd = st.env['__b_' + nm][0]
+                if not is_true(simplify(bnd)):        # UnboundLocalError unless the variable was assigned on every path here
+                    s.safe(st, f'bound:{nm}', bnd, e.lineno)
+                    st.env['__b_' + nm] = (BoolVal(True), BOOL)
+            return st.env[nm]
+        if not s.specmode and '__b_' + nm in st.env:
+            dt = s.declared(nm)
+            if dt is None:
+                raise Unsupported(f'local {nm} may be unbound at line {e.lineno}: declare its type in `locals`')
+            s.safe(st, f'bound:{nm}', st.env['__b_' + nm][0], e.lineno)
+            st.env[nm] = (fresh(nm, dt), dt)
             return st.env[nm]
         if s.specmode:
+            dt0 = s.declared(nm)
+            if dt0 is not None and '__b_' + nm in st.env:
+                # a local that is not bound yet: contracts may mention it under a bound(...) guard; its value is arbitrary
+                st.env[nm] = (fresh(nm, dt0), dt0)
+                return st.env[nm]
             if nm == 'result' and 'result' in st.env:
                 return st.env['result']
             hn = s.cur.get('heapnames', {})
@@ -952,6 +968,9 @@ class VCGen:
                 if nm == 'truthy':
                     a, ta = s.ev(e.args[0], st)
                     return s.truthy(a, ta, st), BOOL
+                if nm == 'bound':
+                    b_ = st.env.get('__b_' + e.args[0].id)
+                    return (b_[0] if b_ else BoolVal(True)), BOOL
                 if nm == 'fp':
                     from z3 import FPVal, Float64
                     return FPVal(float(ast.literal_eval(e.args[0])), Float64()), FP
@@ -1355,6 +1374,14 @@ class VCGen:
         gname = s.cur.get('ghost_after_comp', {}).get(ordn)
         if gname:                   # ghost name for the comprehension's value (used by later hints)
             st.env[gname] = (res, rt)
+        hc = s.cur.get('hint_after_comp', {}).get(ordn)
+        if hc and not s.specmode:   # intermediate assertions about the comprehension's value: proved, then assumed
+            for k, h in enumerate(hc.get('hints', [])):
+                t2 = st.clone()
+                for u in hc.get('use', {}).get(k, []):
+                    s.use_lemma(t2, u)
+                s.oblige(t2, f'hint-comp#{ordn}.{k}', s.spec_eval(h, t2, 1), e.lineno, 'hint')
+                st.pc.append(s.spec_eval(h, st, -1))
         return res, rt
 
     def listeq_goal(s, a, b, t):
@@ -1444,6 +1471,8 @@ class VCGen:
                 raise Unsupported(f'local {tg.id} changes type {ot} -> {t}')
             st.env[tg.id] = (v, t)
             st.unbound.discard(tg.id)
+            if '__b_' + tg.id in st.env:
+                st.env['__b_' + tg.id] = (BoolVal(True), BOOL)
             return
         if isinstance(tg, (ast.Tuple, ast.List)):
             if t == TRANS:
@@ -1620,7 +1649,10 @@ class VCGen:
             extra = []
             for u in (up.get(k, []) + up.get('all', []) if isinstance(up, dict) else up):     # lemma instances for this clause
                 t2 = st.clone()
-                s.use_lemma(t2, u)
+                try:
+                    s.use_lemma(t2, u)
+                except Unsupported:
+                    continue            # the instance mentions a ghost that does not exist on this (early) return path: not used
                 extra += t2.pc[len(st.pc):]
             s.oblige(st, f'post#{k}', s.spec_eval(post, st, 1), line, 'post', extra=extra)
         s.frame_obligations(st, line, 'ret')
@@ -1796,6 +1828,8 @@ class VCGen:
 
     def havoc(s, st, names, fields, lists, ghost_decl):
         for v in sorted(names):
+            if '__b_' + v in st.env and not is_true(simplify(st.env['__b_' + v][0])):
+                st.env['__b_' + v] = (fresh('bound_' + v, BOOL), BOOL)     # bound or not after an unknown number of iterations
             if v in st.env:
                 t = st.env[v][1]
             else:
@@ -2226,6 +2260,9 @@ class VCGen:
             s.assume(st, r)
         for a in c.get('use_axioms', []):
             st.pc.append(AXIOMS[a])
+        for v in sorted(s.assigned_names(fn.body)):
+            if v not in c['params']:
+                st.env['__b_' + v] = (BoolVal(False), BOOL)
         st.old = st.clone()
         n0 = len(s.obligs)
         # local variables assigned somewhere but not yet bound
